@@ -19,8 +19,43 @@ def small_boundary(width):
     return sorted({0, 1, full, 1 << (width - 1), full >> 1})
 
 
+_burst = [0]
+
+
+def source_value(rng, width, hi=None):
+    """a literal of the library under test (or a neighbour) that fits `width` bits and `hi`, or None: values a defect with a
+    narrow trigger has written down (see vmon/srcdict.py). Literals the recorded baseline does not have are preferred, and come
+    in bursts so that several fields of one request take such values together."""
+    if width <= 0:
+        return None
+    from vmon import srcdict
+
+    nv = srcdict.novel(width)
+    if hi is not None:
+        nv = [v for v in nv if v <= hi]
+    if nv:
+        if _burst[0] > 0:
+            _burst[0] -= 1
+            if rng.random() < 0.8:
+                return rng.choice(nv)
+        elif rng.random() < 0.03:
+            _burst[0] = 12
+        if rng.random() < 0.2:
+            return rng.choice(nv)
+    if rng.random() < 0.06:
+        c = srcdict.candidates(width)
+        if hi is not None:
+            c = [v for v in c if v <= hi]
+        if c:
+            return rng.choice(c)
+    return None
+
+
 def rand_value(rng, width):
     """random value biased to interesting shapes"""
+    v = source_value(rng, width)
+    if v is not None:
+        return v
     r = rng.random()
     full = (1 << width) - 1
     if r < 0.15:
@@ -78,6 +113,13 @@ def byte_string(rng, n, kind=None):
     if kind == "asc":
         return bytes((i + 1) & 0xFF for i in range(n))
     if kind == "text":
+        from vmon import srcdict
+
+        lits = srcdict.novel_strings()
+        if lits and n and rng.random() < 0.3:
+            # a text the library's source spells out and the recorded baseline does not have, cut or padded to the field
+            t = rng.choice(lits).encode("utf-8", "replace")[:n]
+            return t + b" " * (n - len(t))
         return bytes(rng.choice(b"ABCDEFGHIJKLMNOPQRSTUVWXYZ0123456789-_.") for _ in range(n))
     return bytes(rng.getrandbits(8) for _ in range(n))
 
